@@ -1,1 +1,841 @@
+"""C19 — all input forms and front ends give the same result.
+
+Every front end is a client submitting the same text through a different
+transport to the same reference model (the str path, computed in a pristine
+process).  The str/bytes/StringIO forms are a differential check between
+pure calls; the stream and command-line forms run over simulated devices
+(chunked raw reads, EINTR, short writes, and reported I/O errors at open,
+read, write and close) under the real io stack (DESIGN §5).
+"""
+import codecs
+import copy
+import errno
+import gc
+import io
+import random
+import sys
+
+from sim import canon, corpus, iofake, ops
+
 CHECK = 'C19'
+LEVEL = 'exploration'
+
+ALL_ENCODINGS = ['utf-8', 'latin-1', 'cp1252', 'cp1251', 'koi8-r', 'gbk',
+                 'shift_jis', 'utf-16', 'utf-32', 'utf-8-sig', 'big5',
+                 'euc_kr', 'iso8859-15', 'ascii']
+NON_UTF = ['latin-1', 'cp1252', 'cp1251', 'koi8-r', 'gbk', 'shift_jis',
+           'big5', 'euc_kr', 'iso8859-15']
+BUF_SIZES = [1, 3, 16, 512, 8192]
+
+IN_PATH = '/sim/in.sql'
+OUT_PATH = '/sim/out.sql'
+
+# flag -> (argv words, format() keyword arguments), per the documented
+# meaning of each flag (independent of cli.py)
+FLAG_TABLE = [
+    (['-k', 'upper'], {'keyword_case': 'upper'}),
+    (['-k', 'lower'], {'keyword_case': 'lower'}),
+    (['--keywords', 'capitalize'], {'keyword_case': 'capitalize'}),
+    (['-i', 'upper'], {'identifier_case': 'upper'}),
+    (['--identifiers', 'lower'], {'identifier_case': 'lower'}),
+    (['-i', 'capitalize'], {'identifier_case': 'capitalize'}),
+    (['-l', 'python'], {'output_format': 'python'}),
+    (['--language', 'php'], {'output_format': 'php'}),
+    (['--strip-comments'], {'strip_comments': True}),
+    (['-r'], {'reindent': True}),
+    (['--reindent'], {'reindent': True}),
+    (['-a'], {'reindent_aligned': True}),
+    (['--reindent_aligned'], {'reindent_aligned': True}),
+    (['-s'], {'use_space_around_operators': True}),
+    (['--use_space_around_operators'], {'use_space_around_operators': True}),
+]
+# flags that only make sense together with -r
+REINDENT_SUB = [
+    (['--indent_width', '4'], {'indent_width': 4}),
+    (['--indent_width', '1'], {'indent_width': 1}),
+    (['--indent_width', '8'], {'indent_width': 8}),
+    (['--indent_after_first'], {'indent_after_first': True}),
+    (['--indent_columns'], {'indent_columns': True}),
+    (['--wrap_after', '20'], {'wrap_after': 20}),
+    (['--wrap_after', '60'], {'wrap_after': 60}),
+    (['--comma_first', 'True'], {'comma_first': True}),
+    (['--comma_first', '1'], {'comma_first': True}),
+    (['--compact', 'True'], {'compact': True}),
+    (['--compact', 'yes'], {'compact': True}),
+]
+INVALID_FLAGS = [
+    ['-r', '--indent_width', '0'],
+    ['-r', '--indent_width', '-3'],
+    ['-r', '--wrap_after', '-1'],
+    ['--indent_width', 'abc'],
+    ['--wrap_after', 'x'],
+    ['-k', 'camel'],
+    ['-i', 'snake'],
+    ['-l', 'java'],
+    ['--no-such-flag'],
+]
+
+
+def population(idx):
+    return 'fault' if idx % 3 == 2 else 'clean'
+
+
+# ---------------------------------------------------------------------------
+# generation
+
+def can_encode(text, enc):
+    try:
+        text.encode(enc)
+        return True
+    except (UnicodeError, LookupError):
+        return False
+
+
+def char_boundaries(text, enc):
+    """Byte offsets (in text.encode(enc)) that fall *inside* a character."""
+    data = text.encode(enc)
+    inc = codecs.getincrementalencoder(enc)()
+    pos = 0
+    bounds = {0}
+    for ch in text:
+        pos += len(inc.encode(ch))
+        bounds.add(pos)
+    inside = [p for p in range(1, len(data)) if p not in bounds]
+    return data, inside
+
+
+def draw_text(rng):
+    r = rng.random()
+    if r < 0.6:
+        script = rng.choice(['ascii', 'latin', 'l1', 'l1', 'cyr', 'cjk'])
+        text = corpus.gen_sql(rng, script, backslash=rng.random() < 0.5)
+    elif r < 0.85:
+        text = rng.choice(corpus.MEDIUM + corpus.SHORT)
+    else:
+        files = corpus.test_files()
+        text = rng.choice(files) if files else corpus.MEDIUM[0]
+    if rng.random() < 0.04:
+        text = rng.choice(['', '\n', ' ', ';', '-- only a comment'])
+    if rng.random() < 0.3 and text.endswith('\n'):
+        text = text.rstrip('\n')       # missing trailing newline
+    return text.replace('\r', '')
+
+
+def draw_read_plan(rng, data, inside, faulty, legal=True):
+    plan = {}
+    n = len(data)
+    if n and legal:
+        mode = rng.random()
+        if mode < 0.25:
+            cuts = []
+        elif mode < 0.4:
+            cuts = list(range(1, n))                   # one byte per read
+        else:
+            k = rng.choice([1, 2, 3, 5, 12])
+            pool = inside if (inside and rng.random() < 0.7) else \
+                list(range(1, n))
+            cuts = sorted(set(rng.choice(pool) for _ in range(k))) \
+                if pool else []
+        plan['cuts'] = cuts
+        if rng.random() < 0.3:
+            plan['eintr'] = sorted(set(rng.randint(1, 6)
+                                       for _ in range(rng.choice([1, 2]))))
+        plan['mb_offsets'] = [c for c in cuts if c in set(inside)]
+    if faulty and n:
+        plan['fail_at'] = rng.randrange(0, n)
+        plan['errno'] = rng.choice([errno.EIO, errno.EIO, errno.ENXIO,
+                                    errno.ETIMEDOUT])
+    return plan
+
+
+def draw_write_plan(rng, faulty, is_file):
+    plan = {}
+    if rng.random() < 0.5:
+        plan['short'] = [rng.choice([1, 2, 5, 17, 100])
+                         for _ in range(rng.choice([1, 2, 4]))]
+    if rng.random() < 0.25:
+        plan['eintr'] = [rng.randint(1, 3)]
+    if faulty:
+        r = rng.random()
+        if r < 0.75 or not is_file:
+            plan['fail_frac'] = rng.random()
+            plan['errno'] = rng.choice([errno.ENOSPC, errno.EPIPE, errno.EIO,
+                                        errno.EDQUOT])
+        else:
+            plan['close_errno'] = rng.choice([errno.EIO, errno.ENOSPC])
+    return plan
+
+
+def draw_cli_flags(rng):
+    argv, opts = [], {}
+    r = rng.random()
+    k = 0 if r < 0.1 else rng.choice([1, 1, 2, 3, 4])
+    picks = rng.sample(FLAG_TABLE, k)
+    for a, o in picks:
+        if any(key in opts for key in o):
+            continue
+        argv += a
+        opts.update(o)
+    if opts.get('reindent') or rng.random() < 0.1:
+        for a, o in rng.sample(REINDENT_SUB, rng.choice([0, 1, 1, 2, 3])):
+            if any(key in opts for key in o):
+                continue
+            argv += a
+            opts.update(o)
+    return argv, opts
+
+
+def gen(seed, idx, tier, ctx):
+    rng = random.Random('%s/%s/%d' % (seed, CHECK, idx))
+    faulty = population(idx) == 'fault'
+    text = draw_text(rng)
+    encs = [e for e in ALL_ENCODINGS if can_encode(text, e)]
+    enc = rng.choice(encs)
+    if rng.random() < 0.5:
+        non8 = [e for e in encs if e not in ('utf-8', 'ascii', 'utf-8-sig')]
+        if non8:
+            enc = rng.choice(non8)
+    data, inside = char_boundaries(text, enc)
+    items = []
+    n_items = rng.choice([3, 4, 5, 6])
+    kinds = ['bytes_enc', 'bytes_utf8', 'bytes_fallback', 'sio', 'stream',
+             'stream', 'cli', 'cli', 'cli', 'cli_invalid']
+    for _ in range(n_items):
+        kind = rng.choice(kinds)
+        api = rng.choice(['parse', 'parsestream', 'split', 'format',
+                          'format'])
+        opts = None
+        if api == 'format':
+            opts = corpus.draw_opts(rng)
+        elif api == 'split' and rng.random() < 0.2:
+            opts = {'strip_semicolon': True}
+        if kind == 'bytes_enc':
+            items.append({'k': 'api', 'form': 'bytes_enc', 'api': api,
+                          'opts': opts, 'enc': enc})
+        elif kind == 'bytes_utf8':
+            items.append({'k': 'api', 'form': 'bytes_utf8', 'api': api,
+                          'opts': opts})
+        elif kind == 'bytes_fallback':
+            cands = [e for e in NON_UTF if can_encode(text, e)]
+            rng.shuffle(cands)
+            for e in cands:
+                b = text.encode(e)
+                try:
+                    b.decode('utf-8')
+                except UnicodeDecodeError:
+                    items.append({'k': 'api', 'form': 'bytes_fallback',
+                                  'api': api, 'opts': opts, 'enc': e})
+                    break
+        elif kind == 'sio':
+            items.append({'k': 'api', 'form': 'sio', 'api': api,
+                          'opts': opts,
+                          'enc': rng.choice([None, None, 'ascii', enc])})
+        elif kind == 'stream':
+            it = {'k': 'api', 'form': 'stream', 'api': api, 'opts': opts,
+                  'enc': enc,
+                  'decl': rng.choice([None, None, enc, 'ascii']),
+                  'buf': rng.choice(BUF_SIZES),
+                  'chunk': rng.choice([None, 1, 4, 64]),
+                  'rplan': draw_read_plan(rng, data, inside,
+                                          faulty and rng.random() < 0.6)}
+            items.append(it)
+        elif kind == 'cli':
+            argv, copts = draw_cli_flags(rng)
+            src = rng.choice(['file', 'stdin'])
+            dst = rng.choice(['stdout', 'file'])
+            it = {'k': 'cli', 'in': src, 'out': dst, 'flags': argv,
+                  'opts': copts, 'enc': enc,
+                  'stdout_enc': rng.choice(['utf-8', enc]),
+                  'buf': rng.choice(BUF_SIZES),
+                  'obuf': rng.choice(BUF_SIZES),
+                  'rplan': draw_read_plan(rng, data, inside, False),
+                  'wplan': draw_write_plan(rng, False, dst == 'file')}
+            if faulty:
+                f = rng.random()
+                if f < 0.3:
+                    it['rplan'] = draw_read_plan(rng, data, inside, True)
+                elif f < 0.6:
+                    it['wplan'] = draw_write_plan(rng, True, dst == 'file')
+                elif f < 0.75 and src == 'file':
+                    it['open_r_err'] = rng.choice(
+                        [errno.ENOENT, errno.EACCES, errno.EISDIR,
+                         errno.EMFILE])
+                elif f < 0.9 and dst == 'file':
+                    it['open_w_err'] = rng.choice(
+                        [errno.EACCES, errno.ENOENT, errno.EROFS])
+            items.append(it)
+        else:
+            items.append({'k': 'cli_invalid', 'in': rng.choice(['file',
+                                                                'stdin']),
+                          'out': rng.choice(['stdout', 'file']),
+                          'flags': list(rng.choice(INVALID_FLAGS)),
+                          'enc': enc})
+    return {'check': CHECK, 'seed': seed, 'idx': idx, 'text': text,
+            'enc': enc, 'faulty': faulty, 'items': items, 'timeout': 90.0}
+
+
+def _ref_key_for(item, text):
+    if item['k'] == 'cli':
+        return ops.ref_key('format', {'t': 'str', 'v': text},
+                           item['opts'] or {}, None)
+    if item['k'] != 'api':
+        return None
+    api = 'parse' if item['api'] == 'parsestream' else item['api']
+    t = text
+    if item['form'] == 'bytes_fallback':
+        t = text.encode(item['enc']).decode('latin-1')
+    return ops.ref_key(api, {'t': 'str', 'v': t}, item['opts'], None)
+
+
+def needed_refs(spec):
+    keys = [_ref_key_for(it, spec['text']) for it in spec['items']]
+    return list(dict.fromkeys(k for k in keys if k))
+
+
+# ---------------------------------------------------------------------------
+# execution
+
+def _api_call(item, obj, enc):
+    api = item['api']
+    return ops.outcome_of(api, lambda: ops.raw_call(api, obj, item['opts'],
+                                                    enc))
+
+
+def run_api_item(item, text, ref, stat, viols, ii):
+    form = item['form']
+    chan = iofake.Chan()
+    enc_arg = None
+    if form == 'bytes_enc':
+        obj = text.encode(item['enc'])
+        enc_arg = item['enc']
+    elif form == 'bytes_utf8':
+        obj = text.encode('utf-8')
+    elif form == 'bytes_fallback':
+        obj = text.encode(item['enc'])
+        if '\\' in text:
+            stat('fallback_with_backslash')
+    elif form == 'sio':
+        obj = io.StringIO(text)
+        enc_arg = item.get('enc')
+    elif form == 'stream':
+        data = text.encode(item['enc'])
+        obj = iofake.make_stream(data, item['rplan'], chan, item['enc'],
+                                 item.get('buf'), item.get('chunk'))
+        enc_arg = item.get('decl')
+    else:
+        raise ValueError(form)
+    out, _ = _api_call(item, obj, enc_arg)
+    stat('form_' + form)
+    stat('cell_%s_%s' % (form, item['api']))
+    sig = '%s|%s|%s|%s' % (form, item['api'], item.get('enc'),
+                           ','.join(sorted((item.get('opts') or {}))))
+    errs = dict(chan.fired)
+    nontrivial = any(ord(c) > 127 for c in text) or chan.events >= 2 \
+        or bool(errs)
+    if form == 'stream':
+        sig += '|cuts%s|%s' % (_cutclass(item['rplan']),
+                               '+'.join(sorted(errs)) or 'nofault')
+    if canon.same(out, ref):
+        return chan, sig, nontrivial
+    if errs and out['k'] == 'exc':
+        stat('faulted_item_failed_visibly')
+        return chan, sig, nontrivial
+    viols.append({
+        'cls': 'form:' + form, 'item': ii, 'api': item['api'],
+        'enc': item.get('enc'), 'opts': item.get('opts'),
+        'faults_fired': errs,
+        'got': canon.short(out), 'want': canon.short(ref),
+        'msg': '%s(%s) differs from the result for the same text passed as '
+               'str%s' % (item['api'], _form_desc(item),
+                          ' (an I/O error was injected, but the call '
+                          'returned normally with a wrong result)'
+                          if errs else '')})
+    return chan, sig, nontrivial
+
+
+def _cutclass(plan):
+    n = len(plan.get('cuts') or [])
+    return '0' if n == 0 else '1-3' if n <= 3 else '4-20' if n <= 20 \
+        else 'many'
+
+
+def _form_desc(item):
+    f = item['form']
+    if f == 'bytes_enc':
+        return 'bytes, encoding=%r' % item['enc']
+    if f == 'bytes_utf8':
+        return 'UTF-8 bytes, no encoding'
+    if f == 'bytes_fallback':
+        return '%s bytes (not valid UTF-8), no encoding; expected: read ' \
+               'as Latin-1' % item['enc']
+    if f == 'sio':
+        return 'io.StringIO, encoding=%r' % item.get('enc')
+    return 'text stream over a simulated device, %s' % item['enc']
+
+
+def run_cli_item(item, text, ref, stat, viols, ii, want_bytes=False):
+    from sqlparse import cli
+    chan = iofake.Chan()
+    fs = iofake.SimFS(chan)
+    enc = item['enc']
+    data = text.encode(enc)
+    argv = []
+    invalid = item['k'] == 'cli_invalid'
+    out_enc = enc if item['out'] == 'file' else (item.get('stdout_enc')
+                                                 or 'utf-8')
+    if not invalid and ref is not None and ref['k'] == 'ok' and \
+            not can_encode(ref.get('v', ''), out_enc):
+        # e.g. identifier_case=upper turns a letter into one the output
+        # encoding cannot represent: the environment's limit, no expectation
+        stat('cli_skipped_output_not_encodable')
+        return chan, 'cli|skipped-unencodable', False, {'bytes': None,
+                                                        'rc': None}
+    if item['in'] == 'file':
+        if item.get('open_r_err') == errno.ENOENT:
+            pass
+        elif item.get('open_r_err'):
+            fs.read_err[IN_PATH] = item['open_r_err']
+        else:
+            fs.files[IN_PATH] = data
+        fs.rplan[IN_PATH] = item.get('rplan') or {}
+        fs.buffer_size[IN_PATH] = item.get('buf') or 8192
+        argv.append(IN_PATH)
+        stdin = iofake.make_stdin(b'', {}, iofake.Chan())
+    else:
+        stdin = iofake.make_stdin(data, item.get('rplan') or {}, chan,
+                                  'utf-8', item.get('buf'))
+        argv.append('-')
+    wplan = dict(item.get('wplan') or {})
+    if 'fail_frac' in wplan:
+        n = (ref or {}).get('n', 0) if ref and ref['k'] == 'ok' else 0
+        wplan['fail_at'] = int(wplan.pop('fail_frac') * n)
+        if n == 0:
+            wplan.pop('fail_at')
+    if item['out'] == 'file':
+        argv += ['-o', OUT_PATH]
+        if item.get('open_w_err'):
+            fs.write_err[OUT_PATH] = item['open_w_err']
+        fs.wplan[OUT_PATH] = wplan
+        fs.buffer_size[OUT_PATH] = item.get('obuf') or 8192
+        stdout, so_sink = iofake.make_stdout({}, chan, item.get(
+            'stdout_enc') or 'utf-8')
+        out_enc = enc
+    else:
+        stdout, so_sink = iofake.make_stdout(
+            wplan, chan, item.get('stdout_enc') or 'utf-8', item.get('obuf'))
+        out_enc = item.get('stdout_enc') or 'utf-8'
+    stderr, se_sink = iofake.make_stdout({}, iofake.Chan(), 'utf-8',
+                                         name='<stderr>')
+    argv += list(item.get('flags') or [])
+    if enc != 'utf-8' or item.get('explicit_enc'):
+        argv += ['--encoding', enc]
+    saved = sys.stdin, sys.stdout, sys.stderr
+    sys.stdin, sys.stdout, sys.stderr = stdin, stdout, stderr
+    cli.open = fs.open
+    rc = None
+    exc = None
+    try:
+        try:
+            rc = cli.main(argv)
+        except SystemExit as e:
+            rc = e.code if e.code is not None else 0
+            stat('cli_systemexit')
+        except Exception as e:                   # noqa
+            exc = e
+    finally:
+        sys.stdin, sys.stdout, sys.stderr = saved
+        try:
+            del cli.open
+        except AttributeError:
+            pass
+    exit_flush_failed = False
+    try:
+        stdout.flush()           # what interpreter shutdown would do
+    except Exception:                            # noqa
+        exit_flush_failed = True
+    try:
+        stderr.flush()
+    except Exception:                            # noqa
+        pass
+    gc.collect()
+    sink = fs.sinks.get(OUT_PATH) if item['out'] == 'file' else so_sink
+    out_bytes = bytes(sink.data) if sink is not None else b''
+    stray = bytes(so_sink.data) if item['out'] == 'file' else b''
+    errs = dict(chan.fired)
+    ok = (rc == 0 and exc is None and not exit_flush_failed)
+    stat('form_cli_%s_%s' % (item['in'], item['out']))
+    stat('channel_events', chan.events)
+    sig = 'cli|%s>%s|%s|%s|cuts%s|%s' % (
+        item['in'], item['out'], enc, ','.join(sorted(item.get('opts')
+                                                      or {})) or
+        ('invalid' if invalid else '-'),
+        _cutclass(item.get('rplan') or {}), '+'.join(sorted(errs)) or
+        'nofault')
+    nontrivial = any(ord(c) > 127 for c in text) or chan.events >= 2 \
+        or bool(errs)
+    base = {'item': ii, 'argv': argv, 'enc': enc, 'in': item['in'],
+            'out': item['out'], 'faults_fired': errs, 'rc': repr(rc),
+            'exc': type(exc).__name__ if exc else None}
+    res = {'bytes': out_bytes.hex() if want_bytes else None, 'rc': rc}
+    if invalid:
+        stat('cli_invalid_items')
+        if ok:
+            viols.append(dict(
+                base, cls='cli:invalid-accepted',
+                msg='sqlformat returned 0 for invalid option values %r '
+                    '(format() rejects them)' % (item['flags'],)))
+        elif out_bytes or stray:
+            viols.append(dict(
+                base, cls='cli:invalid-output',
+                msg='sqlformat produced output although the option values '
+                    '%r are invalid' % (item['flags'],)))
+        return chan, sig, nontrivial, res
+    if ok:
+        try:
+            got_text = out_bytes.decode(out_enc)
+        except UnicodeDecodeError as e:
+            viols.append(dict(
+                base, cls='cli:undecodable-output',
+                msg='sqlformat output is not valid %s: %s' % (out_enc, e)))
+            return chan, sig, nontrivial, res
+        out = canon.ok_outcome('format', got_text)
+        if stray:
+            viols.append(dict(base, cls='cli:stray-stdout',
+                              msg='output went to stdout although -o was '
+                                  'given'))
+        elif not canon.same(out, ref):
+            viols.append(dict(
+                base, cls='cli:wrong-output', got=canon.short(out),
+                want=canon.short(ref),
+                msg='sqlformat %s returned 0 but its output differs from '
+                    'format(decoded text, %r)%s' % (
+                        ' '.join(argv), item['opts'],
+                        ' (an I/O error was injected and not reported)'
+                        if errs else '')))
+        if se_sink.data:
+            stat('cli_ok_with_stderr_output')
+    else:
+        stat('cli_failed_visibly')
+        if errs:
+            stat('faulted_item_failed_visibly')
+        elif ref is not None and ref['k'] == 'exc':
+            stat('cli_failed_like_format')
+        else:
+            viols.append(dict(
+                base, cls='cli:unexpected-failure',
+                stderr=bytes(se_sink.data)[:200].decode('utf-8', 'replace'),
+                msg='sqlformat %s failed (rc=%r, exception=%s) although no '
+                    'I/O error was injected and format() succeeds' % (
+                        ' '.join(argv), rc,
+                        type(exc).__name__ if exc else None)))
+    return chan, sig, nontrivial, res
+
+
+def run(spec, refs):
+    import sqlparse  # noqa
+    sys.setrecursionlimit(ops.AMPLE)
+    text = spec['text']
+    viols = []
+    stats = {}
+    sigs = set()
+    sigs_nt = set()
+    digest = 0
+    cli_out = []
+
+    def stat(k, n=1):
+        stats[k] = stats.get(k, 0) + n
+    for ii, item in enumerate(spec['items']):
+        ref = refs.get(_ref_key_for(item, text))
+        if item['k'] == 'api':
+            chan, sig, nt = run_api_item(item, text, ref, stat, viols, ii)
+            stat('channel_events', chan.events)
+        else:
+            chan, sig, nt, res = run_cli_item(item, text, ref, stat, viols,
+                                              ii, spec.get('want_bytes'))
+            cli_out.append(res)
+        for k, v in chan.fired.items():
+            stat('fault_' + k, v)
+        for k, v in chan.probes.items():
+            stat('probe_' + k, v)
+        sigs.add(sig)
+        if nt:
+            sigs_nt.add(sig)
+        digest = (digest * 1000003 + chan.digest) & 0xFFFFFFFFFFFFFFFF
+    stat('items', len(spec['items']))
+    stat('pop_' + ('fault' if spec.get('faulty') else 'clean'))
+    return {'status': 'violation' if viols else 'ok', 'viol': viols,
+            'stats': stats, 'sigs': sorted(sigs), 'sigs_nt': sorted(sigs_nt),
+            'nontrivial': bool(sigs_nt), 'digest': '%x' % digest,
+            'outs': canon.digest([sorted(stats.items())])[0],
+            'sig': None, 'cli_out': cli_out if spec.get('want_bytes')
+            else None}
+
+
+def on_crash(spec, st):
+    return {'status': 'harness', 'msg': 'child died: ' + st}
+
+
+# ---------------------------------------------------------------------------
+# minimisation
+
+def candidates(spec):
+    items = spec['items']
+    if len(items) > 1:
+        for i in range(len(items)):
+            c = copy.deepcopy(spec)
+            c['items'] = [items[i]]
+            yield c
+    for i, it in enumerate(items):
+        if it.get('opts'):
+            for k in list(it['opts']):
+                c = copy.deepcopy(spec)
+                del c['items'][i]['opts'][k]
+                if it['k'] == 'cli':
+                    c['items'][i]['flags'] = _flags_for(c['items'][i]['opts'])
+                yield c
+        for pk in ('rplan', 'wplan'):
+            p = it.get(pk)
+            if p:
+                for f in list(p):
+                    if f == 'mb_offsets':
+                        continue
+                    c = copy.deepcopy(spec)
+                    del c['items'][i][pk][f]
+                    yield c
+        for f in ('chunk', 'decl', 'buf', 'obuf'):
+            if it.get(f):
+                c = copy.deepcopy(spec)
+                c['items'][i][f] = None
+                yield c
+    # shrink the text: by statement, by line, by halves, by character
+    text = spec['text']
+    parts = []
+    for sep in (';', '\n', ' '):
+        if sep in text:
+            parts = text.split(sep)
+            for j in range(len(parts)):
+                t2 = sep.join(parts[:j] + parts[j + 1:])
+                if t2 != text and _still_encodable(spec, t2):
+                    c = copy.deepcopy(spec)
+                    c['text'] = t2
+                    _fix_plans(c)
+                    yield c
+    n = len(text)
+    if n > 1:
+        for a, b in ((0, n // 2), (n // 2, n)):
+            t2 = text[:a] + text[b:]
+            if _still_encodable(spec, t2):
+                c = copy.deepcopy(spec)
+                c['text'] = t2
+                _fix_plans(c)
+                yield c
+        if n <= 60:
+            for j in range(n):
+                t2 = text[:j] + text[j + 1:]
+                if _still_encodable(spec, t2):
+                    c = copy.deepcopy(spec)
+                    c['text'] = t2
+                    _fix_plans(c)
+                    yield c
+
+
+def _flags_for(opts):
+    argv = []
+    for key, val in opts.items():
+        for a, o in FLAG_TABLE + REINDENT_SUB:
+            if o == {key: val}:
+                argv += a
+                break
+    return argv
+
+
+def _still_encodable(spec, t2):
+    for it in spec['items']:
+        e = it.get('enc')
+        if e and not can_encode(t2, e):
+            return False
+        if it.get('form') == 'bytes_fallback':
+            try:
+                t2.encode(e).decode('utf-8')
+                return False
+            except UnicodeDecodeError:
+                pass
+    return can_encode(t2, spec['enc'])
+
+
+def _fix_plans(c):
+    for it in c['items']:
+        for pk in ('rplan',):
+            p = it.get(pk)
+            if p:
+                n = len(c['text'].encode(it['enc']))
+                if p.get('cuts'):
+                    p['cuts'] = [x for x in p['cuts'] if x < n]
+                if p.get('fail_at') is not None and n:
+                    p['fail_at'] = min(p['fail_at'], n - 1)
+                p.pop('mb_offsets', None)
+
+
+def viol_class(result):
+    v = result.get('viol') or []
+    return v[0]['cls'] if v else None
+
+
+def match_known(ent, spec, result):
+    m = ent.get('match') or {}
+    v = (result.get('viol') or [{}])[0]
+    if m.get('cls') and v.get('cls') != m['cls']:
+        return False
+    if m.get('text_contains') and m['text_contains'] not in spec.get(
+            'text', ''):
+        return False
+    return bool(m)
+
+
+# ---------------------------------------------------------------------------
+# extra phase: stub fidelity against the real file system and a real
+# `python -m sqlparse` subprocess with real pipes
+
+def extra_phase(tier, seed, ws, agg, run_spec_on):
+    import os
+    import shutil
+    import subprocess
+    import tempfile
+    from sim.boot import REPO
+    n = 12 if tier == 'quick' else 60
+    out = {'fidelity_cli_items': 0, 'fidelity_mismatches': 0,
+           'fidelity_examples': []}
+    w = ws[0]
+    tmp = tempfile.mkdtemp(prefix='simfid.', dir='/dev/shm')
+    try:
+        k = 0
+        idx = 0
+        while k < n and idx < n * 30:
+            spec = w.ask({'cmd': 'gen', 'check': CHECK, 'seed': seed,
+                          'idx': idx * 3, 'tier': tier})['spec']
+            idx += 1
+            items = [it for it in spec['items'] if it['k'] == 'cli'
+                     and not any(x in it for x in ('open_r_err',
+                                                   'open_w_err'))]
+            if not items or spec['faulty']:
+                continue
+            spec['items'] = items[:1]
+            spec['want_bytes'] = True
+            r = run_spec_on(w, spec)
+            if r.get('status') != 'ok' or not r.get('cli_out'):
+                continue
+            it = items[0]
+            sim_bytes = bytes.fromhex(r['cli_out'][0]['bytes'] or '')
+            data = spec['text'].encode(it['enc'])
+            inp = os.path.join(tmp, 'in%d.sql' % k)
+            outp = os.path.join(tmp, 'out%d.sql' % k)
+            argv = [sys.executable, '-m', 'sqlparse']
+            if it['in'] == 'file':
+                with open(inp, 'wb') as f:
+                    f.write(data)
+                argv.append(inp)
+                stdin_data = None
+            else:
+                argv.append('-')
+                stdin_data = data
+            if it['out'] == 'file':
+                argv += ['-o', outp]
+            argv += it['flags']
+            if it['enc'] != 'utf-8':
+                argv += ['--encoding', it['enc']]
+            env = dict(os.environ)
+            env['PYTHONIOENCODING'] = it.get('stdout_enc') or 'utf-8'
+            env['PYTHONPATH'] = REPO
+            env['PYTHONDONTWRITEBYTECODE'] = '1'
+            p = subprocess.run(argv, input=stdin_data, capture_output=True,
+                               cwd=REPO, env=env, timeout=120)
+            if it['out'] == 'file':
+                try:
+                    with open(outp, 'rb') as f:
+                        real = f.read()
+                except OSError:
+                    real = b''
+            else:
+                real = p.stdout
+            out['fidelity_cli_items'] += 1
+            if p.returncode != 0 or real != sim_bytes:
+                out['fidelity_mismatches'] += 1
+                agg.harness.append({
+                    'idx': spec['idx'],
+                    'msg': 'stub fidelity: real subprocess/file system run '
+                           'of %r gave rc=%d and %d bytes, simulated run '
+                           'gave %d bytes; stderr=%r' % (
+                               argv[3:], p.returncode, len(real),
+                               len(sim_bytes), p.stderr[-300:])})
+            elif len(out['fidelity_examples']) < 3:
+                out['fidelity_examples'].append(
+                    {'argv': argv[3:], 'bytes': len(real)})
+            k += 1
+    finally:
+        shutil.rmtree(tmp, ignore_errors=True)
+    return out
+
+
+TIERS = {'quick': 24000, 'thorough': 700000}
+WALL_CAP = {'quick': 240, 'thorough': 3300}
+DET_SAMPLE = {'quick': 24, 'thorough': 100}
+
+RULE = (
+    "A run is one forked, pristine process pushing one seeded text (seeded "
+    "SQL grammar in ASCII/Latin/Cyrillic/CJK alphabets with or without "
+    "backslashes, corpus scripts, the repo's test files; no CR) in one "
+    "encoding able to represent it through 3-6 front-end items: bytes + "
+    "encoding, UTF-8 bytes, non-UTF-8 bytes without encoding (expected: "
+    "Latin-1), StringIO, a text stream over a simulated raw device, or the "
+    "sqlformat command line reading a simulated file/stdin and writing "
+    "simulated stdout/-o file, with seeded chunk boundaries (biased into "
+    "multi-byte characters), EINTR, short writes, and - in the fault "
+    "population (every third run) - reported I/O errors at open/read/write/"
+    "close. Oracle: every item equals the str-path result from a pristine "
+    "process; under an injected error the item must fail visibly or still "
+    "be exact. Non-trivial item: text has non-ASCII characters, or the "
+    "channel saw >= 2 raw operations, or a fault fired. Distinct: distinct "
+    "(form, api/flags option-key set, encoding, chunk-pattern class, "
+    "faults fired) tuples; distinct_nontrivial counts tuples of "
+    "non-trivial items only.")
+
+PROBES = ['probe_multibyte_char_split_across_reads', 'probe_short_read',
+          'probe_three_or_more_raw_reads', 'probe_short_write',
+          'fault_read_error_after_some_data', 'fault_read_error_after_no_data',
+          'fault_write_error_ENOSPC', 'fault_write_error_EPIPE',
+          'fault_close_error', 'fault_open_read_error_ENOENT',
+          'fault_open_read_error_EACCES', 'fault_open_write_error_EACCES',
+          'fallback_with_backslash', 'form_bytes_fallback', 'form_stream',
+          'form_cli_file_stdout', 'form_cli_stdin_stdout',
+          'form_cli_file_file', 'form_cli_stdin_file', 'cli_invalid_items',
+          'faulted_item_failed_visibly']
+
+COMPONENTS = {
+    'real': ['all of sqlparse incl. sqlparse.cli.main and argparse',
+             'io.BufferedReader/BufferedWriter/TextIOWrapper and the codecs '
+             '(incremental decoding, newline handling, EINTR retry, '
+             'short-write loops)', 'a sample of fault-free CLI items is '
+             'repeated with a real `python -m sqlparse` subprocess, real '
+             'pipes and real files under /dev/shm (stub fidelity)'],
+    'stub': ['raw devices (SimRaw/SimSink: chunking, EINTR, errors)',
+             'file namespace and open() (SimFS, installed as '
+             'sqlparse.cli.open)', 'sys.stdin/sys.stdout/sys.stderr '
+             'objects (real io layers over stub devices)']}
+
+ASSUMPTIONS = [
+    'str/bytes/StringIO forms are a differential check between pure calls, '
+    'not simulation; only the stream and CLI forms meet simulated devices',
+    'texts contain no CR: newline translation in text-mode files is '
+    "Python's, not sqlparse's",
+    'only faults a kernel reports to the application are injected (no '
+    'silent corruption below the API)',
+    'locale encoding of the simulated process is UTF-8; stdout encoding is '
+    'UTF-8 or the input encoding',
+    'sampling: a clean batch is evidence over the seeds run']
+
+
+def evidence(tier, seed, agg, meta):
+    from sim import evid
+    cells = {k[5:]: v for k, v in agg.stats.items() if k.startswith('cell_')}
+    return evid.build(CHECK, tier, seed, LEVEL, agg, meta, RULE, PROBES,
+                      COMPONENTS, ASSUMPTIONS, {'form_api_cells': cells})
